@@ -1,0 +1,25 @@
+//go:build verif
+
+package engine
+
+// Verification hooks for C01 (crash recovery), second batch. Thin wrappers, no behaviour of their own.
+
+// VerifOpenShardOpts is VerifOpenShard; it exists so that a harness can pass its own per-shard options
+// (e.g. WalReplayAsync) without touching the options other harnesses share.
+func VerifOpenShardOpts(dir string, opts EngineOptions) (*VerifShard, error) {
+	return VerifOpenShard(dir, opts, VerifShardConfig{})
+}
+
+// VerifAbandon closes only the index builder of the shard. A harness calls it instead of Close after the shard's
+// flush path panicked (in a server that panic ends the process): shard.Close would wait for the snapshot that will
+// never finish.
+func (v *VerifShard) VerifAbandon() error { return v.sh.indexBuilder.Close() }
+
+// VerifReplayingWal reports shard.replayingWal (true while the write-ahead log is being re-applied).
+func (v *VerifShard) VerifReplayingWal() bool { return v.sh.replayingWal }
+
+// VerifMstDeleting reports whether the measurement carries the shard's "deleting" mark (shard.checkMstDeleting).
+func (v *VerifShard) VerifMstDeleting(name string) bool { return v.sh.checkMstDeleting(name) }
+
+// VerifWaitWalReplay blocks until the (possibly asynchronous) log replay of the shard has finished (WAL.wait).
+func (v *VerifShard) VerifWaitWalReplay() { v.sh.wal.wait() }
